@@ -43,7 +43,7 @@ def tokenize(src: str, base: int = 0, stop: Optional[int] = None) -> List[Tok]:
             if j == -1 or j > n:
                 j = n
             text = src[i:j]
-            if (text.startswith("///") and not text.startswith("////")) or text.startswith("//!"):
+            if text.startswith("///") and not text.startswith("////"):
                 toks.append(Tok("doc", text, i, j))
             i = j
             continue
@@ -60,7 +60,7 @@ def tokenize(src: str, base: int = 0, stop: Optional[int] = None) -> List[Tok]:
                 else:
                     j += 1
             text = src[i:j]
-            if (text.startswith("/**") and not text.startswith("/***") and text != "/**/") or text.startswith("/*!"):
+            if text.startswith("/**") and not text.startswith("/***") and text != "/**/":
                 toks.append(Tok("doc", text, i, j))
             i = j
             continue
